@@ -347,9 +347,15 @@ pub fn diff(pred: &J, obs: &J) -> Vec<String> {
     if let (Some(ps), Some(os)) = (pred["snap"].as_object(), obs["snap"].as_object()) {
         for (k, mv) in ps {
             let ok = match k.as_str() {
-                "bp" | "data" | "input" => {
+                "bp" | "input" => {
                     let rv = &os[k];
                     mv["some"] == rv["some"] && (mv["some"] == false || agrees(mv, rv))
+                }
+                "data" => {
+                    // the abstract cursor is the position of the next item READ takes: "no cursor yet"
+                    // and "at the first item of the first DATA statement" are the same position
+                    let pos = |v: &J| if v["some"] == true { (v["chunk"].as_u64().unwrap_or(0), v["item"].as_u64().unwrap_or(0)) } else { (0, 0) };
+                    pos(mv) == pos(&os[k])
                 }
                 _ => os.get(k).map(|rv| agrees(mv, rv)).unwrap_or(false),
             };
